@@ -24,6 +24,10 @@ def gen_value(kind, sizes, rng):
     return rng.randn(dim(args[0]), dim(args[1]))
   if name == 'vec':
     return rng.randn(dim(args[0]))
+  if name == 'row':
+    return rng.randn(1, dim(args[0]))
+  if name == 'pmat':
+    return rng.rand(dim(args[0]), dim(args[1])) + 0.1
   if name == 'pvec':
     return rng.rand(dim(args[0])) + 0.1
   if name == 'pm1':
